@@ -706,6 +706,8 @@ class Tensor(object):
                 result.cores[0] = result.cores[0] * other
                 return result
             else:
+                if isinstance(other, np.generic):
+                    other = other.item()  # The N-th root below must not be taken in the scalar's own (lower) precision
                 factor = np.abs(other) ** (1 / self.dim())
                 sign = np.sign(other)
             # We scale all cores by the same factor to prevent precision issues
@@ -824,6 +826,8 @@ class Tensor(object):
 
     def __truediv__(self, other: Union[Any, torch.Tensor]):
 
+        if isinstance(other, np.generic):
+            other = other.item()  # The reciprocal must not be taken in the scalar's own (lower) precision
         return self * (1.0 / other)
 
     """
